@@ -166,6 +166,11 @@ def digest(v, behavior=False):
 # including secondary resources (base array, dtype object, behavior dict).
 # ---------------------------------------------------------------------------
 
+# the per-view state that *is* the coordinate system of a NumPy vector array; any other instance attribute
+# (a private cache, say) is not operand state in the sense of C16
+_COORD_KEYS = ("_azimuthal_type", "_longitudinal_type", "_temporal_type")
+
+
 def snap(v, depth=0):
     if depth > 4:
         return ("deep",)
@@ -190,7 +195,7 @@ def snap(v, depth=0):
         return ("nd", type(v).__name__, str(dt.descr) if dt.names else str(dt), 0, dt.names,
                 v.shape, v.strides, v.flags.writeable,
                 hashlib.sha256(v.view(numpy.ndarray).tobytes()).hexdigest()[:24] if dt != object else repr(v.tolist()),
-                tuple(sorted((k, getattr(x, "__name__", repr(x))) for k, x in d.items())) if d else (), bsnap)
+                tuple(sorted((k, getattr(x, "__name__", repr(x))) for k, x in d.items() if k in _COORD_KEYS)) if d else (), bsnap)
     if isinstance(v, numpy.dtype):
         return ("dtype", 0, v.names, str(v.descr) if v.names else str(v))
     try:
@@ -229,7 +234,7 @@ def snap_diff(a, b):
     if a[0] != b[0]:
         return f"kind {a[0]}->{b[0]}"
     if a[0] == "nd":
-        names = ("", "class", "dtype", "-", "dtype.names", "shape", "strides", "writeable", "bytes", "instance-dict", "base-array")
+        names = ("", "class", "dtype", "-", "dtype.names", "shape", "strides", "writeable", "bytes", "coordinate-types", "base-array")
         diffs = [names[i] for i in range(1, len(a)) if a[i] != b[i]]
         extra = ""
         if "dtype.names" in diffs:
